@@ -480,7 +480,9 @@ Proof.
       * intros _. left. by right.
       * done.
     + unfold wait_ok in *; cbn. done.
-    + cbn. apply log_ok_snoc; [done|]. split_and!; try done.
+    + cbn. apply log_ok_snoc; [done|]. split_and!; try done. cbn. split_and!; try done.
+      intros HF. destruct Hss as (Hrs & [Htx|[_ ?]] & _); [|unfold fo in *; congruence].
+      by destruct (user_in_slot _ _ _ Hq Hc Hrs Htx) as (_ & _ & ?).
   - split.
     + eapply qshape_same; [..|exact Hq]; done.
     + eapply cells_ok_view; [..|exact Hc]; done.
